@@ -66,8 +66,9 @@ def body(decider, strategy, jobs, nbits, script, mutset, checker_fn,
             final = SC.run_strategy(env, strategy)
         except SC.Runaway:
             # cut off: the chain relation must hold for the writes so far
+            # (a run cut off at the write bound counts with its prefix)
             if checker_fn is SC.check_chain:
-                return SC.check_chain(env, None) or 'runaway'
+                return SC.check_chain(env, None)
             return 'runaway'
         return checker_fn(env, final)
     finally:
@@ -116,7 +117,7 @@ CONFIGS = [
     ('ddmin', 'a', 'core'), ('ddmin', 'b', 'mix'), ('ddmin', 'c', 'erase'),
     ('ddmin', 'd', 'mix'), ('hierarchical', 'b', 'elim'),
     ('ddmin', 'b', 'elim'), ('ddmin', 'k', 'consts'),
-    ('hierarchical', 'e', 'consts'),
+    ('hierarchical', 'e', 'consts'), ('hierarchical', 'k4', 'consts'),
 ]
 
 
@@ -135,6 +136,18 @@ def partitions(tier):
             npin = 0 if j == 1 else (2 if tier == 'quick' else 3)
             if j == 3 and (st, sc, ms) not in CONFIGS[:2] + CONFIGS[4:6]:
                 continue      # three workers: four configurations only
+            if sc == 'k4':
+                # large input: only the same-size adversary, one worker
+                if j == 1:
+                    parts.append({'name': f'{st}_{sc}_{ms}_j1_shape',
+                                  'kind': 'choices',
+                                  'run': make_run(st, 1, sc, ms, tier, pin=(),
+                                                  oracle='shape'),
+                                  'budget_s': 170 if tier == 'quick' else 850,
+                                  'bounds': {'strategy': st, 'script': sc,
+                                             'mutators': ms, 'jobs': 1,
+                                             'oracle': 'same-shape'}})
+                continue
             for pin in itertools.product((0, 1), repeat=npin):
                 nm = f'{st}_{sc}_{ms}_j{j}' + (
                     '_p' + ''.join(map(str, pin)) if pin else '')
